@@ -511,16 +511,21 @@ def finish (c : Ctx) (ok : Bool) (file : Option (String × Nat)) : MainResult :=
   let c3 := if ok then c2 else c2.say "*** Failed ***"
   { status := if ok then 0 else 1, cell := c3.cell, k := c3.k, listing := c3.rep.list, out := c3.rep.out, file := file }
 
+/-- the context at the head of pass 1: constructor, option parsing, "Pass 1...", init() -/
+def pass1Start (initF : Ctx → Ctx) (depth : Nat) (o : Opts) : Ctx :=
+  initF ((applyOpts o (construct depth)).say "Pass 1...")
+
+/-- the pass switch of main(): symbols.lock(), "Pass 2...", pass = 2, init(), write_list_file = 1 if -l -/
+def pass2Start (initF : Ctx → Ctx) (listOpt : Bool) (c : Ctx) : Ctx :=
+  let c3 := initF ({ c with k := { c.k with symsLocked := true, pass := 2 } }.say "Pass 2...")
+  if listOpt then { c3 with rep := { c3.rep with writeListFile := true } } else c3
+
 /-- main() of naken_asm.cpp from the constructor on; `initF` is AsmContext::init() -/
 def mainWith (initF : Ctx → Ctx) (depth : Nat) (o : Opts) (p : Prog) : MainResult :=
-  let c0 := (applyOpts o (construct depth)).say "Pass 1..."
-  let r1 := exec p (initF c0)
+  let r1 := exec p (pass1Start initF depth o)
   if !r1.ok then finish (r1.ctx.say "** Errors... bailing out") false none
   else
-    let c2 := { r1.ctx with k := { r1.ctx.k with symsLocked := true, pass := 2 } }.say "Pass 2..."
-    let c3 := initF c2
-    let c4 : Ctx := if o.list then { c3 with rep := { c3.rep with writeListFile := true } } else c3
-    let r2 := exec p c4
+    let r2 := exec p (pass2Start initF o.list r1.ctx)
     if r2.ok then finish r2.ctx true (some (o.outName, o.fileType)) else finish r2.ctx false none
 
 def mainRun := mainWith init
